@@ -949,6 +949,37 @@ PLANS.update({"C05": c05})
 import json as _json
 
 
+def frozen_data_drift(run):
+    """the model's frozen data (catalogue circle / arc tables, Unicode glyph table) against the tables of the code
+    under test, dumped through the hooks: a difference means the mechanism model no longer describes this tree;
+    recorded as drift (the property verdicts never depend on it)"""
+    import subprocess, sys
+    exe = common.BOBDRIVE
+    d = common.rundir()
+    tj, gj, gt = os.path.join(d, "tables.json"), os.path.join(d, "glyphs.ndjson"), os.path.join(d, "UnicodeGlyphs.tla")
+    diffs = []
+    try:
+        subprocess.run([exe, "tables", tj], check=True, timeout=300, stdout=subprocess.DEVNULL)
+        subprocess.run([exe, "glyphs", gj], check=True, timeout=300, stdout=subprocess.DEVNULL)
+        now = _json.load(open(tj, encoding="utf-8"))
+        frozen = _json.load(open(os.path.join(common.ROOT, "verifpy", "catalogue_tables.json"), encoding="utf-8"))
+        for key in sorted(set(now) | set(frozen)):
+            if now.get(key) != frozen.get(key):
+                diffs.append("catalogue table '%s' differs from spec/CatalogueTables.tla" % key)
+        r = subprocess.run([sys.executable, os.path.join(common.ROOT, "tools", "gen_unicode_glyphs.py"), gj, gt],
+                           capture_output=True, text=True, timeout=300)
+        if r.returncode != 0 or open(gt).read() != open(os.path.join(common.ROOT, "spec", "UnicodeGlyphs.tla")).read():
+            diffs.append("Unicode glyph table differs from spec/UnicodeGlyphs.tla")
+    except (subprocess.SubprocessError, OSError, ValueError) as e:
+        diffs.append("table dump failed: %s" % e)
+    run.notes["frozen_tables_compared"] = ["circles", "quarter", "half", "three_quarters", "unicode glyphs"]
+    run.notes["frozen_tables_differ"] = diffs
+    for x in diffs:
+        run.drift += 1
+        if len(run.drift_samples) < 5:
+            run.drift_samples.append({"frozen_data": x})
+
+
 def c13(tier):
     run = Run("C13", tier)
     cat = _json.load(open(os.path.join(common.ROOT, "verifpy", "catalogue.json"), encoding="utf-8"))
@@ -961,6 +992,7 @@ def c13(tier):
     r = common.rng("C13")
     cfg = simple_cfg("MC_C13", {"MaxK": 3, "MaxN": 3}, ["ModelC13", "EdgeFlagMatchesShape", "Emit"])
     res = run.model("MC_Circle", cfg)
+    frozen_data_drift(run)
     beh = common.tla_json_strings(res["lines"], "REPLAY")
     texts = [rows_text(b["rows"]) for b in beh]
     obs = observe.observe([{"input": t} for t in texts], tag="C13A")
